@@ -1,6 +1,7 @@
 package main
 
 import (
+	"math/big"
 	"bytes"
 	"fmt"
 	"math/rand"
@@ -249,6 +250,52 @@ func (t *t08) genTx() (pb.Transaction, string) {
 			r.Read(b)
 			return harness.XVMDeployTx(k, w.Nonce(k.Addr), w.Stamp(), b), "odd:wasm"
 		}
+	case x < 96: // envelope fields that are simply absent on the wire (pointer fields decode to nil)
+		var tx *pb.BxhTransaction
+		switch r.Intn(3) {
+		case 0:
+			tx = w.Transfer(k, harness.User(0).Addr, "1")
+		case 1:
+			tx = w.BVM(k, harness.AddrStore, "Set", pb.String("k"), pb.String("v"))
+		default:
+			from, to := harness.FullID(harness.ChainA, "s1"), harness.FullID(harness.ChainB, "s1")
+			tx = w.IBTPTx(k, harness.MkIBTP(from, to, 1<<40, pb.IBTP_INTERCHAIN, 0), []byte("p"))
+		}
+		tag := "absent:"
+		if r.Intn(2) == 0 {
+			tx.From = nil
+			tag += "from"
+		}
+		if r.Intn(2) == 0 {
+			tx.To = nil
+			tag += "to"
+		}
+		if r.Intn(3) == 0 {
+			tx.Payload = nil
+			tag += "payload"
+		}
+		if r.Intn(3) == 0 {
+			tx.Signature = nil
+			tag += "sig"
+		}
+		if r.Intn(4) == 0 {
+			tx.Timestamp, tx.Nonce = 0, 0
+			tag += "zeros"
+		}
+		tx.TransactionHash = tx.Hash()
+		return tx, tag
+	case x < 98: // Ethereum-format transactions: odd but decodable
+		ek := []string{"eth-0", "eth-1", "eth-never-funded"}[r.Intn(3)]
+		price := big.NewInt(int64(1000 + r.Intn(1000000)))
+		var to *types.Address
+		if r.Intn(3) != 0 {
+			to = []*types.Address{harness.User(0).Addr, harness.AddrStore, harness.AddrInterchain, harness.EthAddr(harness.EthKey("eth-receiver"))}[r.Intn(4)]
+		}
+		data := mutateBytes(r, []byte{0x60, 0x00, 0x60, 0x00, 0xfd, 0x5b, 0x56, 0xff})
+		gas := []uint64{0, 1, 20999, 21000, 53000, 1 << 20, 1 << 62}[r.Intn(7)]
+		val := []*big.Int{big.NewInt(0), big.NewInt(1), new(big.Int).Lsh(big.NewInt(1), 200)}[r.Intn(3)]
+		etx := harness.EthTx(harness.EthKey(ek), []uint64{1356, 1356, 1, 0}[r.Intn(4)], uint64(r.Intn(3)), gas, price, val, to, data, w.Stamp())
+		return etx, "eth:odd"
 	default: // bad signatures (verified because LocalList[i] is false)
 		tx := w.Transfer(k, harness.User(0).Addr, "1")
 		switch r.Intn(4) {
